@@ -44,7 +44,7 @@ CLAUSES = {
         "tie only: close_terminates_goal stated; every case ends with close_all_connections() under a virtual-time watchdog",
 }
 PARALLEL = True
-CASE_TIMEOUT = 20
+CASE_TIMEOUT = 300    # a case takes milliseconds; the limit only has to survive a heavily loaded machine
 SHUTDOWN_ROUNDS = 40
 
 CONNS = [None, "close", "keep-alive", "Keep-Alive", "CLOSE", "upgrade", "close, x", "keep-alive, x", "x"]
